@@ -76,6 +76,9 @@ func (in *Interp) callFn(st *State, fr *Frame, instr ssa.Value, cc *ssa.CallComm
 			}
 		}
 	}
+	if sm, ok := in.Cfg.Summaries[name]; ok {
+		return one(sm(args))
+	}
 	if m, ok := in.Cfg.Intercept[name]; ok {
 		return m(in, st, cc, args)
 	}
@@ -134,6 +137,11 @@ func (in *Interp) findFunc(name string) *ssa.Function {
 	for _, p := range in.Pkgs {
 		if f := p.Func(name); f != nil {
 			return f
+		}
+		if strings.HasPrefix(name, p.Pkg.Path()+".") {
+			if f := p.Func(strings.TrimPrefix(name, p.Pkg.Path()+".")); f != nil {
+				return f
+			}
 		}
 	}
 	for _, p := range in.Pkgs {
@@ -292,7 +300,7 @@ func init() {
 	for _, n := range []string{"nondetString", "nondetBool", "nondetInt", "nondetIntRange", "nondetRegexp", "nondetPred", "nondetURLPred",
 		"nondetRewriter", "nondetError", "verifAssume", "verifAssert", "verifReach", "verifProvenance", "verifFreeze", "verifNote",
 		"verifNoteBool", "verifNoteInt", "verifMatch", "verifHasToken", "verifCut", "verifIsTokStr", "verifLower", "verifURLHost", "verifURLScheme", "verifURLOk", "verifURLNorm",
-		"verifEffects", "verifSameObject", "verifWrite", "verifWriteFailed", "verifOr", "verifAnd", "verifImplies", "verifCurrentToken", "verifIte"} {
+		"verifEffects", "verifSameObject", "verifWrite", "verifWriteFailed", "verifOr", "verifAnd", "verifImplies", "verifCurrentToken", "verifIte", "verifNot", "verifMatchPrefix", "verifAppended", "verifParam", "verifNoteURL"} {
 		intrinsicNames[n] = true
 	}
 }
@@ -442,6 +450,27 @@ func (in *Interp) intrinsic(st *State, fr *Frame, name string, args []Value, cc 
 		s := termOf(args[0])
 		failed := name == "verifWriteFailed"
 		return []Alt{{Eff: func(st *State) { st.Writes = append(st.Writes, Write{S: s, Kind: "WriteString", Failed: failed}) }}}
+	case "verifParam":
+		v, ok := in.Cfg.Params[constStr(args[0])]
+		if !ok {
+			panic("harness parameter not set: " + constStr(args[0]))
+		}
+		return one(smt.IntC(int64(v)))
+	case "verifNoteURL":
+		raw, out, okT := termOf(args[0]), termOf(args[1]), termOf(args[2])
+		return []Alt{{Eff: func(st *State) {
+			l, _ := st.Ghost["urlstubs"].([][3]*smt.Term)
+			st.Ghost["urlstubs"] = append(append([][3]*smt.Term(nil), l...), [3]*smt.Term{raw, out, okT})
+		}}}
+	case "verifNot":
+		return one(smt.Not(termOf(args[0])))
+	case "verifMatchPrefix":
+		return one(smt.PrefixOf(termOf(args[1]), termOf(args[0])))
+	case "verifAppended":
+		// s = prefix + rest and rest contains piece
+		s, pre, piece := termOf(args[0]), termOf(args[1]), termOf(args[2])
+		rest := smt.Substr(s, smt.StrLen(pre), smt.Sub(smt.StrLen(s), smt.StrLen(pre)))
+		return one(smt.And(smt.PrefixOf(pre, s), smt.Contains(rest, piece)))
 	case "verifOr":
 		return one(smt.Or(termOf(args[0]), termOf(args[1])))
 	case "verifAnd":
